@@ -6,7 +6,10 @@
 (*   {cfg: {threads, wc, ka, nconn, K, R}, ev: [ {e, c, x, nr, now} ... ]} *)
 (* Events are observations at the worker's boundary only (what it did to   *)
 (* sockets / executor / selector, what the clients and the clock did):     *)
-(*   env:    connect c . send c . leave c . tick . term . pdead            *)
+(*   env:    connect c . send c . leave c . tick . term . pdead .          *)
+(*           steal c (another worker of the pool took c off the shared     *)
+(*           listen queue, possibly after this worker's poller had already *)
+(*           reported the listener readable: its accept() gets EAGAIN)     *)
 (*   worker: loop (top of a main-loop iteration) . accept c . submit c .   *)
 (*           reg c (socket handed to the poller) . close c . reclose c .   *)
 (*           exit (run() returned) . crash (run() raised)                  *)
@@ -101,6 +104,9 @@ Step ==
      CASE e.e = "connect" ->
             /\ st' = [st EXCEPT ![c] = "backlog"] /\ verdict' = "ok"
             /\ Same(<<pend, left, dl, dll, wait, exp, late, busy, acc, cls, stopping, termed>>)
+       [] e.e = "steal" ->
+            /\ st' = [st EXCEPT ![c] = "closed"] /\ left' = [left EXCEPT ![c] = TRUE] /\ verdict' = "ok"
+            /\ Same(<<pend, dl, dll, wait, exp, late, busy, acc, cls, stopping, termed>>)
        [] e.e = "send" ->
             /\ pend' = [pend EXCEPT ![c] = TRUE] /\ verdict' = "ok"
             /\ Same(<<st, left, dl, dll, wait, exp, late, busy, acc, cls, stopping, termed>>)
